@@ -512,3 +512,13 @@ func VpSameSnapshot(b *Board, s *VpSnapshot) bool {
 	}
 	return ok
 }
+
+// VpNoisy is the specification of the generator's noisy/quiet split: a move is noisy iff it captures (the target
+// square is occupied, or it is a pawn taking en passant) or promotes.
+func VpNoisy(b *Board, m move.Move) bool {
+	from, to := m.From(), m.To()
+	if b.SquaresToPiece[to] != NoPiece || m.Promo() != NoPiece {
+		return true
+	}
+	return b.SquaresToPiece[from] == Pawn && b.EnPassant != 0 && to == b.EnPassant && from&7 != to&7
+}
